@@ -292,6 +292,7 @@ fn cli_case(t: &mut Tape, w: &Worker) -> CaseResult {
     let fmt0 = t.chance(1, 2);
     let mut packets = vec![];
     let mut page = 0u16;
+    let mut last_id_ff = 0;
     for ch in words.chunks(40) {
         let mut p = Packet::new(Rdh { fee_id: fee_id(0, 0, 1), pages_counter: page, format_word: if fmt0 { 0 } else { 2 }, ..Rdh::default() });
         p.words = ch.to_vec();
@@ -300,10 +301,20 @@ fn cli_case(t: &mut Tape, w: &Worker) -> CaseResult {
             p.words[1][0] |= 1;
         }
         // a format-2 payload must not end in 0xFF bytes that belong to a word
+        // (a run of 0xFF shorter than a word - the word's own trailing 0xFF bytes plus the padding - is still a word:
+        //  such a last word, illegal in every state, stays in and must be reported like any other)
         if !fmt0 {
+            let n = p.words.len();
+            let pad = (16 - (10 * n) % 16) % 16;
+            if pad <= 8 && t.chance(1, 5) {
+                p.words[n - 1][9] = 0xFF;
+            }
             if let Some(l) = p.words.last_mut() {
-                if l[9] == 0xFF {
+                let own = l.iter().rev().take_while(|b| **b == 0xFF).count();
+                if own > 0 && pad + own > 9 {
                     l[9] = 0xFE;
+                } else if own > 0 {
+                    last_id_ff += 1;
                 }
             }
         }
@@ -365,6 +376,9 @@ fn cli_case(t: &mut Tape, w: &Worker) -> CaseResult {
     out.fingerprint = fnv64(&bytes);
     out.execs = case.execs;
     out.labels.push(if fmt0 { "cli:format0".into() } else { "cli:format2".into() });
+    if last_id_ff > 0 {
+        out.labels.push("cli:format2:last_word_id_0xFF".into());
+    }
     if w.take_sample() {
         out.sample = Some(json!({"kind": "cli", "words": words.len(), "illegal": n_illegal, "messages": msgs.len()}));
     }
